@@ -186,6 +186,32 @@ def h_strip(t: str, chars: Optional[str], n: int, k: int, s1: int, r1: int, s2: 
     return True
 
 
+def h_replace_same_len(n: int, k: int, s1: int, r1: int, s2: int, r2: int, cnt: int):
+    """Plain-str replacement as long as the (whole-text) match: every character takes the first character's settings."""
+    t = 'abcd'[:n]
+    s = styled(t, n, k, s1, r1, s2, r2)
+    if s is None:
+        return None
+    c = pick(cnt, -1, 2)
+    if c is None:
+        return None
+    tab = S(s, n)
+    res = s.replace(t, 'WXYZ'[:n], c)
+    if c == 0:
+        exp_text, exp = t, tab
+    else:
+        exp_text, exp = 'WXYZ'[:n], [tab[0]] * n
+    if res.base_str != exp_text:
+        return ('replace-text', res.base_str, exp_text)
+    got = S(res, n)
+    for i in range(n):
+        if not term.same(got[i], exp[i]):
+            return ('replace-style', t, i, got[i], exp[i], 'same-length')
+    if nonuniform(tab):
+        cover('nonuniform')
+    return True
+
+
 def h_case(n: int, p1: int, p2: int, p3: int, k: int, s1: int, r1: int, s2: int, r2: int, m: int):
     pal = ('a', 'Z', ' ', '1', 'é', 'ǅ')
     t = ''
@@ -348,6 +374,9 @@ def obligations(tier):
         obs.append(Ob('assign/n%d' % n, h_assign, dict(n=n, k=2 if n else 0, **({} if n else dict(s1=0, r1=0, **z1))),
                       need=('longer',) + (('shorter',) if n else ()), budget=600,
                       bounds='n=%d -> 0..n+2, 2 apply steps' % n, kinds=KINDS))
+    for n in (2, 3, 4):
+        obs.append(Ob('replace/same-length/n%d' % n, h_replace_same_len, dict(n=n, k=2), need=('nonuniform',), budget=600,
+                      bounds='whole-text match of length %d replaced by a plain str of the same length, 2 apply steps' % n, kinds=KINDS))
     for r1 in range(6):
         obs.append(Ob('replace/n3/dup/r%d' % r1, h_replace, dict(n=3, k=2, form=0, s1=0, s2=0, r1=r1), need=('replaced',), budget=1500, per_path=40,
                       bounds='text length 3, the same setting applied twice (nested / overlapping ranges), plain replacement', kinds=KINDS))
